@@ -73,7 +73,7 @@ fn probe(args: Args) {
             match r {
                 Err(p) => println!("case {i}: PANIC {} {}", p.location, p.message.chars().take(200).collect::<String>()),
                 Ok(out) => {
-                    println!("case {i} [{}] {}", out.kind, out.status.chars().take(300).collect::<String>());
+                    println!("case {i} [{}] {}{}", out.kind, out.status.chars().take(300).collect::<String>(), out.rtl_engines_disagree.as_ref().map(|s| format!(" RTL-ENGINES-DISAGREE: {s}")).unwrap_or_default());
                     let bad = out.cfgs.iter().any(|c| matches!(&c.eval, Some(Ok(g)) if g.mismatch.is_some()));
                     if bad && std::env::var_os("PROBE_VERBOSE").is_some() {
                         let d = out.design.as_ref().unwrap();
